@@ -33,7 +33,7 @@ def run(rep, tier, replay):
         ctab, xtab = shapes.COMPRESS_THOROUGH, shapes.EXPAND_THOROUGH_FIXED
     import time
     t0 = time.time()
-    mbad = sched.mc_legs(rep, [("compress", ctab), ("expand", xtab)], pol, timeout=3000)
+    mbad = sched.mc_legs(rep, [("compress", ctab), ("expand", xtab)], pol, timeout=1200 if tier == "thorough" else 900)
     rep.cov["t_mc"] = round(time.time() - t0, 1)
     # ---- allocation discipline on planted-pattern files (leak check on)
     files = sched.planted_files(rng, full=False)
